@@ -144,6 +144,10 @@ def normalize_server_spec(server: ServerSpec) -> ServerSpec:
     return (host, port)
 
 
+# What __getitem__ passes to get() to tell a miss from a stored None.
+_MISSING = object()
+
+
 class KeepaliveOpts:
     """
     A configuration structure to define the socket keepalive.
@@ -1369,8 +1373,10 @@ class Client:
         self.set(key, value, noreply=True)
 
     def __getitem__(self, key):
-        value = self.get(key)
-        if value is None:
+        # A stored value may be None (or anything else falsy): only a miss is
+        # a KeyError.
+        value = self.get(key, default=_MISSING)
+        if value is _MISSING:
             raise KeyError
         return value
 
@@ -1690,8 +1696,10 @@ class PooledClient:
         self.set(key, value, noreply=True)
 
     def __getitem__(self, key):
-        value = self.get(key)
-        if value is None:
+        # A stored value may be None (or anything else falsy): only a miss is
+        # a KeyError.
+        value = self.get(key, default=_MISSING)
+        if value is _MISSING:
             raise KeyError
         return value
 
